@@ -143,7 +143,7 @@ fn run(input: RunInput) -> ScenFuture {
                             let _ = tokio::time::timeout(Duration::from_secs(3), rx.read_to_end(1 << 16)).await;
                         }
                         // H calling the adversary back: the response must be attributed to K'
-                        serve_one_claiming(&adv, c.clone(), x_id);
+                        serve_one_claiming(&c, x_id);
                         if let Ok(resp) = rpc_bounded(&h, adv_id, Request::new(Bytes::from_static(b"who-are-you")), Duration::from_secs(3)).await {
                             check_id(&w, resp.peer_id().copied(), adv_id, "response-attributed-to-wrong-identity", "H calls admitted adversary");
                         }
@@ -228,6 +228,58 @@ fn run(input: RunInput) -> ScenFuture {
         }
         w.fabric.set_faults_enabled(false);
         sleep_ms(500).await;
+        // ---- an address changes hands: H knows X at its address, X goes away, the adversary (its
+        //      own key, its own valid certificate) binds that very address. Whoever H reaches there
+        //      now is K', whatever H remembers about the address ----
+        let mut x_node = x_node;
+        if x_online && !w.violated() && w.flag("address_changes_hands", 0.35) {
+            let x = x_node.take().unwrap();
+            let x_addr = x.addr;
+            if let Ok(pid) = h.net.connect(x_addr).await {
+                check_id(&w, Some(pid), x_id, "dial-returned-identity-the-remote-does-not-hold", "honest dial of X before the takeover");
+                let _ = rpc_bounded(&h, x_id, Request::new(Bytes::from_static(b"hello-x")), Duration::from_secs(3)).await;
+                let _ = h.net.disconnect(pid);
+            }
+            let _ = tokio::time::timeout(Duration::from_secs(30), x.net.shutdown()).await;
+            drop(x);
+            sleep_ms(50).await;
+            if !w.fabric.is_bound(x_addr) {
+                let adv = adv_endpoint(&w, AdvSpec {
+                    idx: 3, port: 7000, chain: vec![cert_own.clone()], sign_key: k_adv, present_client_cert: true,
+                    idle_ms: 8_000, keep_alive_ms: Some(2_000), max_bidi: 100,
+                });
+                let srv = {
+                    let adv_ep = adv.ep.clone();
+                    tokio::spawn(async move {
+                        while let Some(inc) = adv_ep.accept().await {
+                            if let Ok(c) = inc.await {
+                                if let Ok(mut s) = c.open_uni().await {
+                                    let _ = s.write_all(&wire::preamble(1)).await;
+                                    let _ = s.finish();
+                                }
+                                serve_one_claiming(&c, x_id);
+                            }
+                        }
+                    })
+                };
+                let pinned = h.net.connect_with_peer_id(x_addr, x_id).await;
+                w.check(pinned.is_err(), "expected-identity-not-enforced", "address-changed-hands", || format!("H dialed X's former address expecting X and got {:?}", pinned.as_ref().map(|p| w.pname(p)).map_err(|e| format!("{e:#}"))));
+                match h.net.connect(x_addr).await {
+                    Ok(pid) => {
+                        check_id(&w, Some(pid), adv_id, "dial-returned-identity-the-remote-does-not-hold", "plain dial of an address that changed hands");
+                        w.check(h.net.peers().contains(&adv_id) && !h.net.peers().contains(&x_id), "listed-identity-nobody-holds", "address-changed-hands", || format!("after dialing X's former address H lists {:?}", h.net.peers().iter().map(|p| w.pname(p)).collect::<Vec<_>>()));
+                        if let Ok(resp) = rpc_bounded(&h, pid, Request::new(Bytes::from_static(b"hello")), Duration::from_secs(3)).await {
+                            check_id(&w, resp.peer_id().copied(), adv_id, "response-attributed-to-wrong-identity", "address that changed hands");
+                        }
+                        let _ = h.net.disconnect(pid);
+                    }
+                    Err(e) => w.violate("control-not-admitted", "address-changed-hands", format!("a plain dial of the adversary at X's former address failed: {e:#}")),
+                }
+                w.probe("address-changed-hands");
+                srv.abort();
+                retired.push(adv);
+            }
+        }
         // ---- ledger oracle over everything H ever attributed ----
         sub.drain(w.now_ns());
         for e in &sub.history {
@@ -274,7 +326,8 @@ fn check_id(w: &World, got: Option<PeerId>, want: PeerId, class: &str, ctx: &str
 }
 
 /// Serve bi streams on an adversary-side connection, answering with a response that claims X.
-fn serve_one_claiming(_adv: &Adv, c: quinn::Connection, x_id: PeerId) {
+fn serve_one_claiming(c: &quinn::Connection, x_id: PeerId) {
+    let c = c.clone();
     tokio::spawn(async move {
         while let Ok((mut tx, mut rx)) = c.accept_bi().await {
             let _ = rx.read_to_end(1 << 16).await;
